@@ -76,8 +76,16 @@ SELECTORS = []
 for mname in SELECT_ZOO:
     for cfg, defs in (('m', ['HV_MANUAL']), ('a', [])):
         SELECTORS.append(dict(name='select_%s_%s' % (mname, cfg), source='harness/hv_select.cpp', defines=['HV_MACHINE_HEADER="%s.hpp"' % mname] + defs, machine=(mname, SELECT_ZOO[mname])))
-for w in WALKERS + SELECTORS:
+FUZZERS = []
+for mname, cfg in (('z01_kitchen', 'm'), ('z02_noortho', 'm'), ('z04_nested', 'm'), ('z03_orthoroot', ''), ('z06_plans', 'm')):
+    w = walker(mname, cfg)
+    FUZZERS.append(dict(w, name=w['name'].replace('walk_', 'fuzz_'), fuzzer=True, link=[]))
+for w in WALKERS + SELECTORS + FUZZERS:
     UNITS[w['name']] = w
+
+
+def fuzz_jobs(runs, names=None):
+    return [dict(bin=f['name'], replay_bin=f['name'].replace('fuzz_', 'walk_'), runs=runs, max_len=8 + 32 * 24) for f in FUZZERS if names is None or f['name'] in names]
 UNITS['units_plan'] = unit('units_plan')
 SELECT_NAMES = [w['name'] for w in SELECTORS]
 WALKER_NAMES = [w['name'] for w in WALKERS]
@@ -91,28 +99,28 @@ def walk_jobs(names, cases, size, args=None):
 
 PROPS = {
     'C01': dict(
-        level='exploration', bins=WALKER_NAMES,
+        level='exploration', bins=WALKER_NAMES, fuzz=fuzz_jobs(400000),
         quick=walk_jobs(WALKER_NAMES, 6000, 40), thorough=walk_jobs(WALKER_NAMES, 20000, 60),
         claim='The configuration invariant (root active iff activated, active only under an active parent, exactly one active sub-state per active composite region named by activeSubState(), all sub-states of an active orthogonal region active) is evaluated from the public answers after every API call and, through the Control object, inside every update/react/query/guard callback, over generated histories on 12 machine structures x several configurations, ASan+UBSan, library assertions live.',
         note='Trusted: the generated structure table (independent DFS of tools/structgen.py). Not evaluated inside enter/exit/reenter and select/rank/utility (the statement excludes the middle of applying a transition).',
         technique='stateful property-based testing (rapidcheck): invariant over generated API/callback histories',
     ),
     'C02': dict(
-        level='exploration', bins=WALKER_NAMES,
+        level='exploration', bins=WALKER_NAMES, fuzz=fuzz_jobs(400000),
         quick=walk_jobs(WALKER_NAMES, 6000, 40), thorough=walk_jobs(WALKER_NAMES, 20000, 60),
         claim='After every processing step the active and resumable configuration read through isActive/isResumable is compared with a reference model of the transition rules (written from the property statement over the generated structure table), applied to the approved guard rounds observed in the trace; reset() and first activation are compared with the model\'s initial activation; queued requests and query() must change nothing.',
         note='Trusted: the reference model (hv_model.hpp). Batches whose requests overlap (one request re-targets an ancestor region of another) are checked for the postcondition only (destination of the last request and its ancestors active); agreement with the sequential model on them is reported as a statistic.',
         technique='model-based differential testing (rapidcheck) against a reference interpreter of the transition rules',
     ),
     'C03': dict(
-        level='exploration', bins=WALKER_NAMES,
+        level='exploration', bins=WALKER_NAMES, fuzz=fuzz_jobs(300000),
         quick=walk_jobs(WALKER_NAMES, 6000, 40), thorough=walk_jobs(WALKER_NAMES, 20000, 60),
         claim='A history invariant over the recorded callback trace of every instance: enter/exit alternate per state starting with enter, every other callback only reaches entered states, parents are entered before and exited after their sub-states, the entered set equals the active set after every API call, nothing stays entered after exit()/destruction, and every callback ran on the object access<State>() returns.',
         note='Does not judge whether a region re-targeted in place is re-entered or exited and entered. Anonymous heads have no callbacks and are skipped.',
         technique='stateful property-based testing (rapidcheck): history invariant over callback traces',
     ),
     'C04': dict(
-        level='exploration', bins=WALKER_NAMES,
+        level='exploration', bins=WALKER_NAMES, fuzz=fuzz_jobs(300000),
         quick=walk_jobs(WALKER_NAMES, 6000, 40), thorough=walk_jobs(WALKER_NAMES, 20000, 60),
         claim='Guard rounds are segmented from the trace (scripted guards cancel and/or substitute requests of any kind): lifecycle callbacks only after the last guard, exit guards before entry guards, every guard sees the pending list that was requested for its round, every state that is exited/entered/re-entered had its guard invoked in the last approved round, an all-vetoed step leaves active and resumable configuration unchanged (apart from schedule marks), the final configuration equals the model applied to approved rounds only, and there are at most SUBSTITUTION_LIMIT rounds (limits 2 and 4).',
         note='Round boundaries are detected from control.requests().count() inside guards. Trusted: the reference model for the final configuration.',
@@ -183,7 +191,7 @@ PROPS = {
         technique='differential property testing (rapidcheck): same case, different storage contents/addresses/copies',
     ),
     'C11': dict(
-        level='exploration', bins=WALKER_NAMES, hang_is_violation=True,
+        level='exploration', bins=WALKER_NAMES, fuzz=fuzz_jobs(800000), hang_is_violation=True,
         quick=walk_jobs(WALKER_NAMES, 6000, 40), thorough=walk_jobs(WALKER_NAMES, 20000, 60),
         claim='All generated histories (including bursts of requests beyond the queue capacity from outside and from callbacks, task appends beyond capacity, endless substitution) run under ASan+UBSan with the library\'s own assertions routed to a handler: no sanitizer report, no assertion, the configuration stays well-formed after over-capacity bursts.',
         note='Known findings F14 and F23 (assertions reachable through the public API) are tolerated only in the exact situation described in KNOWN_FINDINGS.txt. "Never allocates" is observed through an operator-new counter around library calls on the explored paths.',
